@@ -3,7 +3,6 @@
 //!   tc <ns> <topic>     TopicName::create         -> `ok` | `err`
 use crate::util::*;
 use selium_protocol::TopicName;
-use selium_std::errors::SeliumError;
 
 fn cps(s: &str) -> String {
     if s.is_empty() { "-".into() } else { s.chars().map(|c| (c as u32).to_string()).collect::<Vec<_>>().join(".") }
@@ -49,7 +48,9 @@ fn case_tn(out: &mut Out, s: &str, tag: &str) {
             (format!("ok {} {} {}", cps(n.namespace()), cps(n.topic()), cps(&shown)), m)
         }
         Ok(Err(e)) => {
-            let cls = match e { SeliumError::ReservedNamespaceError => "reserved", SeliumError::ParseTopicNameError => "parse", _ => "other" };
+            // classified by the variant's name, not by its shape: a variant that gains a field stays the same kind of refusal
+            let dbg = format!("{e:?}");
+            let cls = if dbg.starts_with("ReservedNamespaceError") { "reserved" } else if dbg.starts_with("ParseTopicNameError") { "parse" } else { "other" };
             let m = if want == Some(true) { Err(format!("rejected a well-formed name ({cls})")) } else { Ok(()) };
             (format!("err {cls}"), m)
         }
